@@ -19,6 +19,7 @@ func main() {
 	verbose := flag.Bool("v", false, "verbose")
 	out := flag.String("out", "/verif", "verif directory (evidence/, reports/)")
 	explain := flag.String("explain", "", "re-analyse and print the obligations recorded in this report")
+	controlsFlag := flag.String("controls", "", "directory with positive-control packages (default <out>/controls)")
 	flag.Parse()
 
 	if *dump != "" {
@@ -33,6 +34,7 @@ func main() {
 		fmt.Fprintln(os.Stderr, "usage: samlcheck -prop C01 [-tier quick|thorough] [-repo /repo]")
 		os.Exit(2)
 	}
+	controlsOverride = *controlsFlag
 	os.Exit(runChecks(*repo, *prop, *tier, *out, *explain, *verbose))
 }
 
